@@ -505,21 +505,24 @@ func ruleV3(c *Ctx, id string) {
 				key := fmt.Sprintf("%s|sum#%d compared", FuncName(fn), n)
 				// guard: SumOverflows(x, y) == false dominates
 				sx, sy := stripConv(add.X), stripConv(add.Y)
-				g := guardedBy(fn, add.Block(), func(cd Cond) (bool, bool) {
-					if cd.Op != token.ILLEGAL {
+				g := guardedByX(fn, add.Block(), func(sub Subst) func(Cond) (bool, bool) {
+					return func(cd Cond) (bool, bool) {
+						if cd.Op != token.ILLEGAL {
+							return false, false
+						}
+						call, ok := cd.X.(*ssa.Call)
+						if !ok || call.Call.StaticCallee() != sumOv {
+							return false, false
+						}
+						// (the test may be made by a predicate helper that is handed the two operands)
+						a0, a1 := sub.resolve(stripConv(call.Call.Args[0])), sub.resolve(stripConv(call.Call.Args[1]))
+						eq := func(p, q ssa.Value) bool { return p == q || sameParamField(p, q) }
+						if (eq(a0, sx) && eq(a1, sy)) || (eq(a0, sy) && eq(a1, sx)) {
+							return true, false
+						}
 						return false, false
 					}
-					call, ok := cd.X.(*ssa.Call)
-					if !ok || call.Call.StaticCallee() != sumOv {
-						return false, false
-					}
-					a0, a1 := stripConv(call.Call.Args[0]), stripConv(call.Call.Args[1])
-					eq := func(p, q ssa.Value) bool { return p == q || sameParamField(p, q) }
-					if (eq(a0, sx) && eq(a1, sy)) || (eq(a0, sy) && eq(a1, sx)) {
-						return true, false
-					}
-					return false, false
-				})
+				}, Subst{}, 0)
 				// short-circuit form: if SumOverflows(a,b) || a+b > X: the sum's block is entered only on the false edge
 				if !g {
 					for _, pb := range add.Block().Preds {
